@@ -606,7 +606,7 @@ func (m *Manager) publishBlockInternal(ctx context.Context) error {
 	default:
 	}
 
-	if m.config.Node.MaxPendingHeadersAndData != 0 && (m.pendingHeaders.numPendingHeaders() >= m.config.Node.MaxPendingHeadersAndData || m.pendingData.numPendingData() >= m.config.Node.MaxPendingHeadersAndData) {
+	if m.config.Node.MaxPendingHeadersAndData != 0 && (m.pendingHeaders.numPendingHeaders() >= m.config.Node.MaxPendingHeadersAndData || m.numPendingDataToSubmit(ctx) >= m.config.Node.MaxPendingHeadersAndData) {
 		m.logger.Warn(fmt.Sprintf("refusing to create block: pending headers [%d] or data [%d] reached limit [%d]", m.pendingHeaders.numPendingHeaders(), m.pendingData.numPendingData(), m.config.Node.MaxPendingHeadersAndData))
 		return nil
 	}
@@ -759,6 +759,27 @@ func (m *Manager) publishBlockInternal(ctx context.Context) error {
 
 	m.logger.Debug("successfully proposed header", "proposer", hex.EncodeToString(header.ProposerAddress), "height", headerHeight)
 	return nil
+}
+
+// numPendingDataToSubmit returns the number of pending blocks whose data still has to be published
+// to the DA layer. Empty blocks have no data to publish and therefore never wait for the DA layer;
+// they are only looked at when the plain count reaches the limit.
+func (m *Manager) numPendingDataToSubmit(ctx context.Context) uint64 {
+	n := m.pendingData.numPendingData()
+	if n < m.config.Node.MaxPendingHeadersAndData {
+		return n
+	}
+	dataList, err := m.pendingData.getPendingData(ctx)
+	if err != nil {
+		return n
+	}
+	var nonEmpty uint64
+	for _, data := range dataList {
+		if len(data.Txs) != 0 {
+			nonEmpty++
+		}
+	}
+	return nonEmpty
 }
 
 func (m *Manager) recordMetrics(data *types.Data) {
